@@ -4,6 +4,7 @@ Implement Nodes, a static library of generally-useful code for data nodes.
 Copyright 2020 William W. Kimball, Jr. MBA MSIS
 """
 import re
+from decimal import Decimal
 from datetime import datetime, date, timedelta, timezone
 from ast import literal_eval
 from typing import Any, Optional
@@ -347,13 +348,21 @@ class Nodes:
 
         Returns: (ScalarNode) The new node
         """
-        minus_sign = "-" if value < 0.0 else None
-        strval = format(value, '.15f').rstrip('0').rstrip('.')
-        precision = 0
+        if value != value or value in (float("inf"), float("-inf")):
+            # ruamel.yaml presents these without any precision or width
+            if anchor is None:
+                return ScalarFloat(value)
+            return ScalarFloat(value, anchor=anchor)
+
+        # The shortest text which reads back as this very number, in
+        # fixed-point notation, always with its decimal point (10.0 is neither
+        # 1.0 nor an Integer).
+        strval = format(Decimal(repr(float(value))), 'f')
+        if "." not in strval:
+            strval += ".0"
+        minus_sign = "-" if strval.startswith("-") else None
         width = len(strval)
-        lastdot = strval.rfind(".")
-        if -1 < lastdot:
-            precision = strval.rfind(".")
+        precision = strval.rfind(".")
 
         if anchor is None:
             new_node = ScalarFloat(
